@@ -96,7 +96,7 @@ theorem nodeStep_mlt {s s' : Sys} {n : Name} {nd : Node} {perm : List Name} (hF 
     (hsu : s.susp = none)
     (hb' : ∀ k y, s'.nodes k = some y → k < N)
     (hs : nodeStep inp s n nd perm = some s') : MLt inp N s' s := by
-  have hrest : restOf s = 5 * s.ready.length + s.toRun.length + 4 + (b + 3) := by simp [restOf, hc, hw, hsu, wRank]
+  have hrest : restOf s = 5 * s.ready.length + s.toRun.length + 4 + (b + 3) := by simp [restOf, curW, hc, hw, hsu, wRank]
   -- the three outcomes of `_gen_node`
   have gen : ∀ (d : Name) (pc' : PC), s' = genStep inp s n nd d pc' →
       (calOf N { nd with pc := pc' } = calOf N nd ∧ linNode inp n { nd with pc := pc' } < linNode inp n nd) →
@@ -119,7 +119,7 @@ theorem nodeStep_mlt {s s' : Sys} {n : Name} {nd : Node} {perm : List Name} (hF 
     | some y =>
       simp only []
       split
-      · exact mlt_same rfl (by simp [restOf, hc, hw, hsu, wRank])
+      · exact mlt_same rfl (by simp [restOf, curW, hc, hw, hsu, wRank])
       · exact mlt_upd hn hN (SameM.of_nodes rfl) (Or.inr ⟨hx.1, by rw [restOf_setNode]; omega⟩)
   -- `_node_add_wait_run`
   have wait : ∀ (ds : List Name) (c : Bool) (pc' : PC), s' = addWaitRun inp s n nd ds c pc' →
@@ -190,7 +190,7 @@ theorem nodeStep_mlt {s s' : Sys} {n : Name} {nd : Node} {perm : List Name} (hF 
           have hp0 : nd.pendTask.length + nd.pendCalc.length = 0 := by
             simp only [ne_eq, not_or, Decidable.not_not] at hp
             simp [hp.1, hp.2]
-          simp [restOf, hc, hw, hsu, wRank]
+          simp [restOf, curW, hc, hw, hsu, wRank]
           simp [linNode, todoOf, posOf, setupTerm, hpc, PC.iterC, PC.iterT, PC.loopback]; omega
       · cases hs
         refine mlt_upd hn hN (SameM.of_nodes rfl) (Or.inr ⟨?_, ?_⟩)
@@ -201,7 +201,7 @@ theorem nodeStep_mlt {s s' : Sys} {n : Name} {nd : Node} {perm : List Name} (hF 
     simp only [hpc] at hs; cases hs
     refine mlt_upd (x := { nd with pc := .afterSelf1 }) hn hN (SameM.of_nodes rfl) (Or.inr ⟨?_, ?_⟩)
     · simp [calOf, hpc, PC.iterC]
-    · simp [restOf, hc, hw, hsu, wRank]
+    · simp [restOf, curW, hc, hw, hsu, wRank]
       simp [linNode, todoOf, posOf, setupTerm, hpc, PC.iterC, PC.iterT, PC.loopback]; omega
   | afterSelf1 =>
     simp only [hpc] at hs
@@ -216,7 +216,7 @@ theorem nodeStep_mlt {s s' : Sys} {n : Name} {nd : Node} {perm : List Name} (hF 
         refine mlt_upd (x := { nd with pc := .setupDecide, waitSelect := true }) hn hN (SameM.of_nodes rfl)
           (Or.inr ⟨?_, ?_⟩)
         · simp [calOf, hpc, PC.iterC]
-        · simp [restOf, hc, hw, hsu, wRank]
+        · simp [restOf, curW, hc, hw, hsu, wRank]
           simp [linNode, todoOf, posOf, setupTerm, hpc, PC.iterC, PC.iterT, PC.loopback]; split <;> omega
       · cases hs
         refine mlt_upd hn hN (SameM.of_nodes rfl) (Or.inr ⟨?_, ?_⟩)
@@ -259,7 +259,7 @@ theorem nodeStep_mlt {s s' : Sys} {n : Name} {nd : Node} {perm : List Name} (hF 
     · cases hs
       refine mlt_upd (x := { nd with pc := .self2 }) hn hN (SameM.of_nodes rfl) (Or.inr ⟨?_, ?_⟩)
       · simp [calOf, hpc, PC.iterC]
-      · simp [restOf, hc, hw, hsu, wRank]
+      · simp [restOf, curW, hc, hw, hsu, wRank]
         simp [linNode, todoOf, posOf, setupTerm, hpc, PC.iterC, PC.iterT, PC.loopback]; omega
     · cases hs
       refine mlt_upd hn hN (SameM.of_nodes rfl) (Or.inr ⟨?_, ?_⟩)
@@ -270,7 +270,7 @@ theorem nodeStep_mlt {s s' : Sys} {n : Name} {nd : Node} {perm : List Name} (hF 
     simp only [hpc] at hs; cases hs
     refine mlt_upd (x := { nd with pc := .afterSelf2 }) hn hN (SameM.of_nodes rfl) (Or.inr ⟨?_, ?_⟩)
     · simp [calOf, hpc, PC.iterC]
-    · simp [restOf, hc, hw, hsu, wRank]
+    · simp [restOf, curW, hc, hw, hsu, wRank]
       simp [linNode, todoOf, posOf, setupTerm, hpc, PC.iterC, PC.iterT, PC.loopback]; omega
   | afterSelf2 =>
     simp only [hpc] at hs; cases hs
@@ -280,7 +280,7 @@ theorem nodeStep_mlt {s s' : Sys} {n : Name} {nd : Node} {perm : List Name} (hF 
       simp [linNode, todoOf, posOf, setupTerm, hpc, PC.iterC, PC.iterT, PC.loopback]
   | done =>
     simp only [hpc] at hs; cases hs
-    exact mlt_same rfl (by simp [restOf, hc, hw, hsu, wRank])
+    exact mlt_same rfl (by simp [restOf, curW, hc, hw, hsu, wRank])
 
 theorem dtick_mlt {s s' : Sys} {perm : List Name} (hF : FiniteTable inp N) {b : Nat}
     (hw : ∀ o, rOf s.rpc o = b + wRank o) (hsu : s.susp = none)
@@ -291,14 +291,14 @@ theorem dtick_mlt {s s' : Sys} {perm : List Name} (hF : FiniteTable inp N) {b : 
   | some n =>
     simp only [hc] at hs
     cases hn : s.nodes n with
-    | none => simp only [hn] at hs; cases hs; exact mlt_same rfl (by simp [restOf, hc, hw, hsu, wRank])
+    | none => simp only [hn] at hs; cases hs; exact mlt_same rfl (by simp [restOf, curW, hc, hw, hsu, wRank])
     | some nd => simp only [hn] at hs; exact nodeStep_mlt hF hc hn (hb n nd hn) hw hsu hb' hs
   | none =>
     simp only [hc] at hs
     cases hrd : s.ready with
     | cons r rs =>
       simp only [hrd] at hs; cases hs
-      exact mlt_same rfl (by simp [restOf, hc, hw, hsu, wRank, hrd]; omega)
+      exact mlt_same rfl (by simp [restOf, curW, hc, hw, hsu, wRank, hrd]; omega)
     | nil =>
       simp only [hrd] at hs
       cases htr : s.toRun with
@@ -315,11 +315,11 @@ theorem dtick_mlt {s s' : Sys} {perm : List Name} (hF : FiniteTable inp N) {b : 
           · simpa [e] using hk
         | some y =>
           simp only [ht] at hs; cases hs
-          exact mlt_same rfl (by simp [restOf, hc, hw, hsu, wRank, hrd, htr])
+          exact mlt_same rfl (by simp [restOf, curW, hc, hw, hsu, wRank, hrd, htr])
       | nil =>
         simp only [htr] at hs
         split at hs
-        · split at hs <;> (cases hs; exact mlt_same rfl (by simp [restOf, hc, hw, hsu, wRank, hrd, htr]))
-        · cases hs; exact mlt_same rfl (by simp [restOf, hc, hw, hsu, wRank, hrd, htr])
+        · split at hs <;> (cases hs; exact mlt_same rfl (by simp [restOf, curW, hc, hw, hsu, wRank, hrd, htr]))
+        · cases hs; exact mlt_same rfl (by simp [restOf, curW, hc, hw, hsu, wRank, hrd, htr])
 
 end DoitModel.Run
